@@ -225,3 +225,28 @@ def pretty_terminates_ok(s: str) -> bool:
 
 
 RLEN = 3 if TIER == 'quick' else 5
+
+
+def debug_errors_ok(i: int) -> bool:
+    """
+    pre: 0 <= i < NERR
+    post: _
+    """
+    # the DEBUG flag changes no result: a pattern that is rejected is rejected with the same exception type, message,
+    # line, column and context with and without it; a pattern that compiles gives the same structure
+    i = concrete(i)
+    with notrace():
+        pre, bad, suf = ERRS[i]
+        pat = pre + bad + suf
+
+        def attempt(flags):
+            sv.purge()
+            buf = io.StringIO()
+            with contextlib.redirect_stdout(buf):
+                try:
+                    return ('ok', repr(sv.compile(pat, flags=flags).selectors))
+                except util.SelectorSyntaxError as e:
+                    return ('sse', str(e), e.line, e.col, e.context)
+                except NotImplementedError as e:
+                    return ('nie', str(e))
+        return ret(attempt(0) == attempt(sv.DEBUG))
